@@ -208,8 +208,10 @@ class UDPMessageDeserializer:
             raise exc.MessageDeserializationError("message", "message is empty")
 
         if len(reader):
-            LOG.warning(f"Left {len(reader)} bytes unread past end of {msg.name} message, "
-                        f"is your message template up to date? {reader.read_bytes(len(reader))!r}")
+            # Keep what we don't understand so the message can still be re-serialized as it came
+            msg.raw_trailer = reader.read_bytes(len(reader), to_bytes=True)
+            LOG.warning(f"Left {len(msg.raw_trailer)} bytes unread past end of {msg.name} message, "
+                        f"is your message template up to date? {msg.raw_trailer!r}")
 
     def _parse_var(self, reader: se.BufferReader, tmpl_variable: MessageTemplateVariable):
         data_size = tmpl_variable.size
